@@ -187,3 +187,52 @@ Example histories_nonvacuous :
   map agrees_b osc = [true; false] /\ map agrees_b osf = [true; true; true] /\
   map (fun o => d_levels (builder o)) osc = [1; 0] /\ map (fun o => d_levels (builder o)) osf = [1; 1; 1].
 Proof. vm_compute. repeat split. Qed.
+
+(* ------------------------------------------------------------------ *)
+(* Tie by TRANSLATION (besides the correspondence runs): Generated/PathSrc.v is produced by
+   harness/py2coq.py from class PyramidIO of toasty/pyramid.py in /repo's working tree on every
+   build -- __init__ (scheme dispatch, template, format), tile_path, _tile_path_LsYsYX,
+   _tile_path_LXY, get_path_scheme, statement by statement, strings as strings -- and the
+   theorems below state that those translated definitions ARE the naming functions the
+   theorems above speak about.  [guess] stands for the directory scan that picks a format
+   when none is given (an oracle: file-system state).  Proofs in Proofs/PathSrcP.v. *)
+From Toasty Require Import Model.SrcPrelude Generated.PathSrc Proofs.PathSrcP.
+
+Theorem src_tile_path_is_model :
+  forall (p : pyramid_io) (level x y : N) (format : option fmt),
+  src_PyramidIO_tile_path (to_spio p) (mkSP (Z.of_N level) (Z.of_N x) (Z.of_N y)) (option_map ext_of format)
+  = Some (tile_path p level x y format).
+Proof. exact PathSrcP.src_tile_path_eq. Qed.
+Print Assumptions src_tile_path_is_model.
+
+Theorem src_constructor_is_model :
+  forall (guess : string -> string -> string) (base : string),
+  (forall (s : scheme) (f : fmt),
+     src_PyramidIO_init guess base (scheme_name s) (Some (ext_of f)) = Some (to_spio (mkPio base s f))) /\
+  (forall (name : string) (fo : option string),
+     name <> "L/Y/YX"%string -> name <> "LXY"%string -> src_PyramidIO_init guess base name fo = None) /\
+  src_PyramidIO_default_scheme = scheme_name LsYsYX.
+Proof.
+  intros guess base. split; [|split].
+  - exact (PathSrcP.src_init_eq guess base).
+  - exact (PathSrcP.src_init_rejects guess base).
+  - exact PathSrcP.src_default_scheme.
+Qed.
+Print Assumptions src_constructor_is_model.
+
+Theorem src_get_path_scheme_is_model :
+  forall p : pyramid_io,
+  src_PyramidIO_get_path_scheme (to_spio p) = Some (scheme_template (Paths.pio_scheme p)).
+Proof. exact PathSrcP.src_get_path_scheme_eq. Qed.
+Print Assumptions src_get_path_scheme_is_model.
+
+(* the translated definitions run *)
+Example src_paths_run :
+  src_PyramidIO_tile_path (mkPIO "out" M_tile_path_LXY "L{1}X{2}Y{3}" "png") (mkSP 3 5 2) None
+    = Some "out/L3X5Y2.png"%string /\
+  src_PyramidIO_tile_path (mkPIO "out" M_tile_path_LsYsYX "{1}/{3}/{3}_{2}" "png") (mkSP 3 5 2) (Some "fits"%string)
+    = Some "out/3/2/2_5.fits"%string /\
+  src_PyramidIO_init (fun _ _ => "npy"%string) "out" "LXY" None
+    = Some (mkPIO "out" M_tile_path_LXY "L{1}X{2}Y{3}" "npy") /\
+  src_PyramidIO_init (fun _ _ => "npy"%string) "out" "XYL" None = None.
+Proof. vm_compute. repeat split. Qed.
